@@ -444,6 +444,8 @@ def g_var(rng, i: int, wf: bool) -> Dict[str, Any]:
             v["range"] = [lo if k != 0 else None, hi if k != 1 else None, rng.choice([None, "1"])]
     if rng.random() < 0.3:
         v["allowed"] = [rng.choice(texts) for _ in range(rng.randrange(1, 4))]
+        if cls == "str" and rng.random() < 0.3:
+            v["allowed"].insert(rng.randrange(len(v["allowed"]) + 1), "")     # <allowedValue/>: the empty string
     if rng.random() < 0.4:
         v["default"] = rng.choice(texts)
     if rng.random() < 0.15:
@@ -507,7 +509,7 @@ def g_device(rng, depth: int, max_depth: int, wf: bool, p_corrupt: float, counte
     n = counter[0]
     info: List[Optional[str]] = []
     for i, tag in enumerate(INFO_TAGS):
-        present = rng.random() < 0.75 or i == 0
+        present = rng.random() < 0.75 or i == 0 or (i == 9 and (wf or rng.random() < 0.8))
         val = {0: f"urn:schemas-upnp-org:device:{rng.choice(WORDS)}:{n}", 9: f"uuid:0000-{n}"}.get(i, rng.choice(WORDS) + " " + tag)
         if rng.random() < 0.08:
             val = ""
@@ -542,12 +544,22 @@ def g_device(rng, depth: int, max_depth: int, wf: bool, p_corrupt: float, counte
                 if rng.random() < 0.08:
                     s[k] = None
             if rng.random() < 0.05 and services:
-                s["type"] = services[0]["type"]
+                s["type"], s["id"] = services[0]["type"], services[0]["id"]   # same type AND same id: not UPnP
+        if services and rng.random() < 0.12:
+            s["type"] = rng.choice(services)["type"]          # same serviceType, different serviceId (legal)
+        if services and rng.random() < 0.06:
+            o0 = rng.choice(services)
+            s["scpd"], s["doc"] = o0["scpd"], o0["doc"]        # two services described by the same SCPD
         services.append(s)
     emb = []
     if depth < max_depth:
         for _ in range(rng.randrange(0, 3)):
-            emb.append(g_device(rng, depth + 1, max_depth, wf, p_corrupt, counter))
+            e = g_device(rng, depth + 1, max_depth, wf, p_corrupt, counter)
+            if emb and rng.random() < 0.25:
+                e["info"][0] = rng.choice(emb)["info"][0]     # sibling of the same deviceType, different UDN (legal)
+            if emb and not wf and rng.random() < 0.1:
+                e["info"][0], e["info"][9] = emb[0]["info"][0], emb[0]["info"][9]   # same type AND same UDN: not UPnP
+            emb.append(e)
     return {"info": info, "icons": icons, "services": services, "embedded": emb}
 
 
@@ -598,6 +610,18 @@ def corpus() -> List[Dict[str, Any]]:
                 "dev": leaf_dev([{**svc(1, doc), "control": "../ctl", "event": "http://other:9/evt", "scpd": "x/../s.xml"}],
                                 icons=[{"mimetype": "image/png", "width": "48", "height": "48", "depth": "24", "url": "/icon.png"}],
                                 embedded=[emb]), "style": 4})
+    # F05c: two services of one type (different ids), two embedded siblings of one type (different UDNs)
+    twin = lambda i: {**svc(i, doc), "type": "urn:schemas-upnp-org:service:S:1"}  # noqa: E731
+    e1, e2 = leaf_dev([svc(5, doc)], n=2), leaf_dev([svc(6, doc)], n=3)
+    e2["info"][0] = e1["info"][0]
+    out.append({"base": b, "strict": True, "dev": leaf_dev([twin(1), twin(2)], embedded=[e1, e2]), "style": 5})
+    # F05d: <allowedValue/> of a string variable is the allowed value ""
+    docd = {"kind": "scpd", "vars": [var("Mode", "string", allowed=["", "ON", ""]), var("N", "ui1", allowed=["1", "2"])],
+            "actions": None}
+    out.append({"base": b, "strict": True, "dev": leaf_dev([svc(1, docd)]), "style": 6})
+    out.append({"base": b, "strict": False, "dev": leaf_dev([svc(1, docd)]), "style": 7})
+    # two services sharing one SCPD document
+    out.append({"base": b, "strict": True, "dev": leaf_dev([svc(1, doc), {**svc(2, doc), "scpd": "scpd1.xml"}]), "style": 8})
     return out
 
 
